@@ -121,6 +121,46 @@ CLAIMED['C03'] = dict(
          'order; plugins are off (C18 covers SRC Details / procedure descriptions).',
     technique='TLC model checking of SrcCallouts.tla + TLC-enumerated callout shapes replayed into the real decoder, display judged by TLC against PelDisplay.tla')
 
+CLAIMED['C04'] = dict(
+    text='UserData.tla states the route of every user-data-like section (built-in JSON / text, parser module, lossless '
+         'dump, dump plus error note) and what the entry must contain; DecodeHistory.tla is the implementation-shaped '
+         'cache/import/call structure, model-checked against it (ErrorNoted, HistoryIndependent), and MC_UserData checks '
+         'that the route function is total and that every non-rendering class carries the payload.  TLC emits the whole '
+         'route space (290 routes); each is realised with fixture parser modules and payload families (JSON documents, '
+         'text with control characters, binary of all length classes, maximum-size 65527 / 65523 byte payloads) and decoded '
+         'by the real parsePEL; TLC judges Lossless (HexDump!Parse of the entry\'s Data = payload), ErrorNote, JsonSame, '
+         'TextLines, PluginOutput, BaseKeys.',
+    design='DESIGN.md 4.6, 5 C04',
+    note='Invalid built-in JSON / non-UTF-8 text are outside the statement.  The canonical JSON the generator predicts is '
+         'compared by TLC as text.',
+    technique='TLC model checking of UserData/DecodeHistory + TLC-enumerated route space replayed into the real decoder, entries judged by TLC (lossless-dump oracle HexDump.tla)')
+CLAIMED['C18'] = dict(
+    text='UserData.tla gives the module-name rules (udparsers.<creator><comp %04x>, srcparsers.<creator>src, the BMC '
+         'wrapper\'s component / hostboot target, calloutparsers.<creator>callouts) and DecodeHistory.tla the '
+         'import/call/containment structure (model-checked: NoPoisoning, ErrorNoted).  Fixture parser modules on the '
+         'package paths record their arguments and behave ok / non-object / None / raising / raising ImportError; shipped '
+         'osrc/oe500/m2c00/ocallouts are exercised too.  An import_module recorder and sys.modules snapshots observe '
+         'every consultation during real decodes; TLC judges ModuleName, Args, Contained (all other entries equal the '
+         'well-behaved run), ErrorNote + Lossless, NothingImported / NothingLoaded with plugins off, SrcModuleName, '
+         'SrcArgs, DrawerRouting / DrawerDecoder / AlwaysObject for the I/O drawer plug-in.',
+    design='DESIGN.md 4.6, 5 C18',
+    note='Fixture modules stand for arbitrary parsers.  Words beyond the valid word count may be zeros or as stored.  The '
+         'stand-alone drawer decoders are the oracle for which decoder was routed to.',
+    technique='TLC model checking of DecodeHistory.tla + import/call recording of real decodes with fixture and shipped parser modules, judged by TLC against UserData.tla')
+CLAIMED['C19'] = dict(
+    text='DecodeHistory.tla models the four module-level import caches and every consultation (cache look-up, import, '
+         'call, except) as the code is shaped; TLC checks HistoryIndependent and NoPoisoning over all histories <= 4 of '
+         'a 45-item alphabet (and shows both fail for the as-found variant).  TLC emits every history of length 2 and '
+         'simulated longer ones; each item is realised as a PEL, the history is played in ONE interpreter with the '
+         'document and the projection of the real caches recorded after every decode, and every PEL is decoded first in '
+         'a FRESH interpreter.  TLC replays the history through DecodeHistory!ImplStep (CacheStep: model state = real '
+         'caches at every step) and judges SameAsFresh, Repeatable, NoForeignValue; random histories of 10-40 decodes '
+         '(damaged, header-damaged, hidden, shipped-plugin PELs) and directories shown in both orders and file by '
+         'file go through the same judge.',
+    design='DESIGN.md 4.6, 5 C19',
+    note='The fresh-interpreter decode is the oracle document.  Sentinels are unique ids / serial numbers per PEL.',
+    technique='TLC model checking of DecodeHistory.tla + TLC-generated histories replayed into one interpreter, cache state and documents validated by TLC against the spec and a fresh-interpreter oracle')
+
 REASON_NOT_YET = 'check not built yet in this session (planned per DESIGN.md 5); not claimed until its TLC-judged check runs green on the unchanged tree'
 
 
